@@ -16,7 +16,7 @@ func init() { registry["C06"] = propC06 }
 func propC06() *Property {
 	return &Property{
 		ID:          "C06",
-		Explanation: "Crash clause only, by obligation classes: Go panics have a closed set of causes; over every function of the packages below the UI (pub, object, client, jtp, mime, hypertext, gemtext, plaintext, markdown, ansi, style) the checker enumerates every may-panic site of the classes K1–K7 and discharges each with a named static argument. K1: every type assertion is comma-ok (or provably holds). K2: every use of the value of a value+Err pair that would crash on the zero value is dominated by XErr == nil, and every producer stored into a pair returns a non-nil value with a nil error. K3: every slice index, slice bound, strings.Repeat count and make size that can depend on a width parameter or a link number is proven within range from branch facts (linear inequalities), or is a named relational exception. K4: every index into a regexp match is within the pattern's capture count and either guarded by a length test, or the pattern is total, or the match comes from FindAll. K5: every explicit panic is discharged (superscript of non-negative numbers only, Activity kinds accepted ⊆ kinds rendered, non-nil harvest receiver, NewFailure(non-nil) via C05.R4). K6: no typed-nil in Container/Tangible (C11.R1). K7: every recursion (call-graph SCC) is in the table with a checked measure. K8: every dereference of a *url.URL in the module (field read, net/url method call) happens where the pointer is provably non-nil — identifiers can be absent, so ids travel as possibly-nil pointers; proof by dominating nil tests, checked url.Parse / ResolveReference results, the source of a successful fetch, and assume-guarantee over all call sites of a parameter. K9: every index or slice bound applied to a strings.Fields result (as many pieces as the text has — none for blanks), and every constant index above 0 into a strings.Split result, is within the length known from branch facts at that point. (K10 = C08.R5) every goroutine of a fan-out writes the slot of its own iteration, so no result slot stays nil. NOT decided: the hang / resource clause (cost of nested indenting blocks: the property text records that the pinned tree violates it with 82 nested <blockquote>; no sound static cost analysis is in reach), nil dereferences outside K2/K6, and bounds checks that rest on relational invariants, which are listed in the evidence as unclaimed sites.",
+		Explanation: "Crash clause only, by obligation classes: Go panics have a closed set of causes; over every function of the packages below the UI (pub, object, client, jtp, mime, hypertext, gemtext, plaintext, markdown, ansi, style) the checker enumerates every may-panic site of the classes K1–K7 and discharges each with a named static argument. K1: every type assertion is comma-ok (or provably holds). K2: every use of the value of a value+Err pair that would crash on the zero value is dominated by XErr == nil, and every producer stored into a pair returns a non-nil value with a nil error. K3: every slice index, slice bound, strings.Repeat count and make size that can depend on a width parameter or a link number is proven within range from branch facts (linear inequalities), or is a named relational exception. K4: every index into a regexp match is within the pattern's capture count and either guarded by a length test, or the pattern is total, or the match comes from FindAll. K5: every explicit panic is discharged (superscript of non-negative numbers only, Activity kinds accepted ⊆ kinds rendered, non-nil harvest receiver, NewFailure(non-nil) via C05.R4). K6: no typed-nil in Container/Tangible (C11.R1). K7: every recursion (call-graph SCC) is in the table with a checked measure. K8: every dereference of a *url.URL in the module (field read, net/url method call) happens where the pointer is provably non-nil — identifiers can be absent, so ids travel as possibly-nil pointers; proof by dominating nil tests, checked url.Parse / ResolveReference results, the source of a successful fetch, and assume-guarantee over all call sites of a parameter. K9: every index or slice bound applied to a strings.Fields result (as many pieces as the text has — none for blanks), and every constant index above 0 into a strings.Split result, is within the length known from branch facts at that point. (K10 = C08.R5) every goroutine of a fan-out writes the slot of its own iteration, so no result slot stays nil. (K3, addition) an index that is the length of its own sequence minus a constant is claimed whatever it depends on: the sequence must be known to be that long (the last element of a slice that can be empty). NOT decided: the hang / resource clause (cost of nested indenting blocks: the property text records that the pinned tree violates it with 82 nested <blockquote>; no sound static cost analysis is in reach), nil dereferences outside K2/K6, and bounds checks that rest on relational invariants, which are listed in the evidence as unclaimed sites.",
 		Assumptions: []string{"library functions do not panic on the argument ranges established here (strings.Repeat count >= 0, slice bounds)", "regexp/syntax models the regexp engine's capture structure"},
 		Rules: []Rule{
 			{ID: "C06.K1", Title: "type assertions are comma-ok or provably hold", Floor: 10, Run: c06K1},
@@ -370,6 +370,9 @@ func c06K3(c *Ctx) {
 					c.ok(construct, P.InstrPos(in), fname, "index is the loop variable of a range over the same sequence")
 				case tainted(x.Index):
 					c.bad(construct, P.InstrPos(in), fname, "index "+lin(x.Index).String()+" depends on the requested width / link number and is not proven within bounds")
+				case hi && !lo && lin(x.Index).coef["len("+normSym(x.X)+")"] > 0:
+					// below the length by construction (len(s)-k), but s may be shorter than k: the last element of a sequence that can be empty
+					c.bad(fname+"/index-from-end", P.InstrPos(in), fname, "index "+lin(x.Index).String()+" is counted from the end of a sequence that is not known to be long enough here: on a shorter (empty) sequence it is negative and the access panics")
 				default:
 					nUnclaimed++
 					unclaimed = append(unclaimed, P.InstrPos(in)+" index "+lin(x.Index).String())
